@@ -198,6 +198,17 @@ pub fn family(name: &str, tier: Tier) -> Vec<Case> {
             s.tls = Tls::S2n;
             s.tasks = vec![echo_task(10_000, 1000)];
             add(s, 1);
+            // segmentation boundaries: every stream length around one and two full packets (the last
+            // frame of a stream is trimmed / padded / split differently for each), loss-free and with the
+            // last flights dropped once
+            let sweep: Vec<usize> = if quick { (1130..=1200).step_by(1).chain((2290..=2400).step_by(3)).collect() } else { (1100..=1210).chain(2250..=2420).chain(3400..=3620).collect() };
+            for size in sweep {
+                let mut s = Scenario::base(&format!("data/sweep-{}-mtu1228", size));
+                s.mtu = 1228;
+                s.tasks = vec![echo_task(size, 0)];
+                s.linger_ms = 50;
+                add(s, 0);
+            }
             if !quick {
                 for (size, mtu, cc) in [(1usize, 1228u16, Cc::Bbr), (4096, 1228, Cc::Cubic), (12_289, 1500, Cc::Bbr), (70_000, 1228, Cc::Bbr)] {
                     for chunk in [0usize, 1000] {
